@@ -306,6 +306,7 @@ static const char *SMALL_SYN[] = {
   "node:2 l3:1 l2:2 l1d:1 core:1 pu:1",
   "package:2 core:2 pu:2(indexes=core:package)",
   "[numa] package:2 [numa(memory=1048576)] pu:2",
+  "group:2 pu:4",     /* a Group level above wide leaves: user Groups land inside an existing Group numbering (seeded change C11-group-depth-skip) */
   "package:4 pu:2",   /* four multi-PU siblings: a conflicting Group can adopt non-adjacent children before it meets the conflict (seeded change C02-group-putback-holes) */
 };
 int univ_small_count(void)
